@@ -2,7 +2,7 @@
 import itertools
 
 from .. import flat, gen, schemas
-from ..refschema import EMPTY, SchemaRejected, ast_print, deriv, first, nullable, run
+from ..refschema import EMPTY, SchemaRejected, TooComplex, ast_print, deriv, first, nullable, run
 from . import contentwork as cw
 
 ID = "C15"
@@ -314,6 +314,9 @@ def _probe(ctx, ast, rnd, maxlen, alphabet):
     # x may contain itself through the group g2, so that wrapper chains exist
     spec = cw.probe_spec(expr, extra={"w": {"content": "x+"}, "v": {"content": "w"}, "doc": {"content": "(x | a | b | c | r | w | v)*"}})
     S, rs = cw.build(spec)
+    if isinstance(rs, TooComplex):
+        ctx.count("probe_too_complex")
+        return
     if isinstance(rs, SchemaRejected) or isinstance(S, BaseException):
         ctx.count("probe_rejected")
         return
